@@ -986,7 +986,8 @@ class Checker:
         memo[i] = res
         return res
 
-    def blame(self, cs: Case, st: Static, stack: tuple, token: Any, want: str | None) -> str | None:
+    def blame(self, cs: Case, st: Static, stack: tuple, token: Any, want: str | None,
+              here_src: Any = None) -> str | None:
         """The first link, from the outermost rendering node down to the object owning
         *token*, that leads into a subtree of which analyze() reports nothing."""
         rep = self._reported(cs, st)
@@ -999,7 +1000,8 @@ class Checker:
         if reported_srcs is None or getattr(self, "_rep_srcs_key", None) is not rep:
             reported_srcs = {r[0] for r in rep}
             self._rep_srcs, self._rep_srcs_key = reported_srcs, rep
-        here = next((getattr(getattr(n, "token", None), "source", None) for n in reversed(stack) if n is not None), None)
+        here = here_src if here_src is not None else next(
+            (getattr(getattr(n, "token", None), "source", None) for n in reversed(stack) if n is not None), None)
         if here is not None and here not in reported_srcs and getattr(self, "_only_src", None) is None:
             for n in reversed(stack):
                 s2 = getattr(getattr(n, "token", None), "source", None)
@@ -1120,7 +1122,7 @@ class Checker:
                 continue
             n["tags"] += 1
             if not any((nm, start, stop, name) in st.tag_at for nm in names(src)):
-                up = CL if src == clash_src else self.blame(cs, st, stack + (None,), None, None)
+                up = CL if src == clash_src else self.blame(cs, st, stack + (None,), None, None, here_src=src)
                 out.append((f"tags:missing@{up}" if up else f"tags:missing:{name}",
                             f"the render executed tag {name!r} ({node}) at {names(src)}[{start}:{stop}] but "
                             f"analyze().tags has no such entry",
